@@ -236,7 +236,11 @@ class LogicLoader:
             # Also check for logic within the `onDone` and `onError` transitions
             for transition in invoke_def.on_done + invoke_def.on_error:
                 for action_def in transition.actions:
-                    if not is_builtin_action(action_def.type):
+                    # 🎭 Same routing as above: a `spawn_` directive names a
+                    #    service, never a user action.
+                    if is_spawn_action(action_def.type):
+                        services.add(spawn_service_key(action_def.type))
+                    elif not is_builtin_action(action_def.type):
                         actions.add(action_def.type)
                 LogicLoader._collect_guard_names(transition.guard_def, guards)
 
